@@ -159,15 +159,15 @@ def load_dot(path):
     """-> (nodes: id -> state dict, edges: id -> [(action, id)], init ids)."""
     import collections
     nodes, edges, inits = {}, collections.defaultdict(list), []
-    node_re = re.compile(r'^(-?\d+) \[label="(.*)"(,style = filled)?\];?$')
-    edge_re = re.compile(r'^(-?\d+) -> (-?\d+) \[label="(\w*)"')
+    node_re = re.compile(r'^(-?\d+) \[label="((?:[^"\\]|\\.)*)"(,style = filled)?')
+    edge_re = re.compile(r'^(-?\d+) -> (-?\d+) \[label="((?:[^"\\]|\\.)*)"')
     with open(path) as fh:
         for line in fh:
             line = line.rstrip('\n')
             m = edge_re.match(line)
             if m:
-                if m.group(1) != m.group(2) or True:
-                    edges[m.group(1)].append((m.group(3), m.group(2)))
+                lab = m.group(3).replace('\\"', '"').replace('\\\\', '\\')
+                edges[m.group(1)].append((lab, m.group(2)))
                 continue
             m = node_re.match(line)
             if m:
